@@ -484,6 +484,17 @@ def bounded_caps(reg, tier, seed):
                 if op in ("resolve", "resolve_temp"):
                     for rj in ref:
                         check_by_name(rj, ops)
+            # the region is announced with seed A, then B, then A again: the Seed is what was announced last, each time
+            ri = rng.randrange(2)
+            region = h.session.regions[ri]
+            seed_a = ref[ri]["Seed"][0][1]
+            for url in (f"https://sim{ri}.example/seed/{run}-b", seed_a, f"https://sim{ri}.example/seed/{run}-c", f"https://sim{ri}.example/seed/{run}-b"):
+                evals += 1
+                h.session.register_region(region.circuit_addr, seed_url=url)
+                ops.append(("reseed", ri, url))
+                if url != ref[ri]["Seed"][0][1]:
+                    ref[ri]["Seed"].insert(0, ("NORMAL", url))
+                check_by_name(ri, ops)
             # several one-shot caps in flight under one name: consuming any of them leaves the others, newest first
             ri = rng.randrange(2)
             region = h.session.regions[ri]
